@@ -53,12 +53,12 @@ func genC05(t *rapid.T) C05Case {
 			op.Other = rapid.IntRange(0, c.NSess-1).Draw(t, "pairother")
 			op.Answer = rapid.SampledFrom([]string{"first-first", "second-first"}).Draw(t, "pairorder")
 		case "roots":
-			op.Answer = rapid.SampledFrom([]string{"own", "own", "foreign", "cancel"}).Draw(t, "answer")
+			op.Answer = rapid.SampledFrom([]string{"own", "own", "foreign", "foreign-error", "cancel", "precancel"}).Draw(t, "answer")
 			op.Other = rapid.IntRange(0, c.NSess-1).Draw(t, "other")
-			if op.Answer == "foreign" && (op.Other == op.Sess || c.Kind == 2) {
+			if (op.Answer == "foreign" || op.Answer == "foreign-error") && (op.Other == op.Sess || c.Kind == 2) {
 				op.Answer = "own"
 			}
-			if op.Answer == "foreign" && Excluded("C05/foreign-answer-accepted") {
+			if (op.Answer == "foreign" || op.Answer == "foreign-error") && Excluded("C05/foreign-answer-accepted") {
 				CountExcluded("C05/foreign-answer-accepted")
 				op.Answer = "own"
 			}
@@ -77,7 +77,7 @@ func genC05(t *rapid.T) C05Case {
 func ntC05(c C05Case) (bool, []string) {
 	addressed := false
 	for _, o := range c.Ops {
-		if o.Op == "notify" || o.Op == "filtered" || (o.Op == "roots" && o.Answer == "foreign") {
+		if o.Op == "notify" || o.Op == "filtered" || (o.Op == "roots" && (o.Answer == "foreign" || o.Answer == "foreign-error")) {
 			addressed = true
 		}
 	}
@@ -93,6 +93,7 @@ type refSess struct {
 	open     bool
 	expect   []string // nonces expected on the current stream since it was opened (in order)
 	stdio    *Conn
+	seenReq  map[string]bool // ids of server-issued requests already attributed to an operation
 }
 
 type c05World struct {
@@ -163,6 +164,9 @@ func execC05(c C05Case) *Failure {
 		cctx, cancel := context.WithCancel(ctx)
 		cw.cancels.Store(nonce, cancel)
 		defer cancel()
+		if pre, _ := req.Params.Arguments["precancel"].(bool); pre {
+			cancel() // the caller has given up before the request is issued
+		}
 		srv := mcp.GetServerFromContext(ctx)
 		l, ok := srv.(lister)
 		if !ok {
@@ -392,6 +396,33 @@ func (cw *c05World) drain(s *refSess, where string) *Failure {
 	return nil
 }
 
+func (s *refSess) markReq(id string) {
+	if s.seenReq == nil {
+		s.seenReq = map[string]bool{}
+	}
+	s.seenReq[id] = true
+}
+
+// staleRequests attributes every roots/list request frame visible now to the operation that just ended (a request given
+// up before it was issued may still have been written).
+func (cw *c05World) staleRequests(s *refSess) {
+	time.Sleep(5 * time.Millisecond)
+	var frames [][]byte
+	if s.stdio != nil {
+		frames, _ = SplitStdioLines(s.stdio.out.Bytes())
+	} else if s.stream != nil {
+		for _, e := range s.stream.Events() {
+			frames = append(frames, []byte(e.Data))
+		}
+	}
+	for _, fr := range frames {
+		var m map[string]json.RawMessage
+		if json.Unmarshal(fr, &m) == nil && string(m["method"]) == `"roots/list"` {
+			s.markReq(string(m["id"]))
+		}
+	}
+}
+
 // nextRootsRequest waits for the roots/list request frame on a session's stream and returns its id.
 func (cw *c05World) nextRootsRequest(s *refSess) (string, bool) {
 	deadline := time.Now().Add(Patience())
@@ -400,8 +431,9 @@ func (cw *c05World) nextRootsRequest(s *refSess) (string, bool) {
 			all, _ := SplitStdioLines(s.stdio.out.Bytes())
 			for i := s.stdio.lines; i < len(all); i++ {
 				var m map[string]json.RawMessage
-				if json.Unmarshal(all[i], &m) == nil && string(m["method"]) == `"roots/list"` {
+				if json.Unmarshal(all[i], &m) == nil && string(m["method"]) == `"roots/list"` && !s.seenReq[string(m["id"])] {
 					s.stdio.lines = i + 1
+					s.markReq(string(m["id"]))
 					return string(m["id"]), true
 				}
 			}
@@ -411,8 +443,9 @@ func (cw *c05World) nextRootsRequest(s *refSess) (string, bool) {
 		evs := s.stream.Events()
 		for i := s.consumed; i < len(evs); i++ {
 			var m map[string]json.RawMessage
-			if json.Unmarshal([]byte(evs[i].Data), &m) == nil && string(m["method"]) == `"roots/list"` {
+			if json.Unmarshal([]byte(evs[i].Data), &m) == nil && string(m["method"]) == `"roots/list"` && !s.seenReq[string(m["id"])] {
 				// frames before the request stay to be accounted by drain: only mark this one as seen by rewriting expectations
+				s.markReq(string(m["id"]))
 				return string(m["id"]), true
 			}
 		}
@@ -433,7 +466,7 @@ func (cw *c05World) roots(op C05Op, s *refSess, nonce, where string) *Failure {
 	}
 	type callRes struct{ text string }
 	resCh := make(chan callRes, 1)
-	body := fmt.Sprintf(`{"jsonrpc":"2.0","id":"call-%s","method":"tools/call","params":{"name":"roots","arguments":{"nonce":%q}}}`, nonce, nonce)
+	body := fmt.Sprintf(`{"jsonrpc":"2.0","id":"call-%s","method":"tools/call","params":{"name":"roots","arguments":{"nonce":%q,"precancel":%v}}}`, nonce, nonce, op.Answer == "precancel")
 	extract := func(frame []byte) string {
 		var m struct {
 			Result struct {
@@ -456,7 +489,12 @@ func (cw *c05World) roots(op C05Op, s *refSess, nonce, where string) *Failure {
 	case 2:
 		s.stdio.in.Write([]byte(body + "\n"))
 	}
-	id, ok := cw.nextRootsRequest(s)
+	id, ok := "", false
+	if op.Answer == "precancel" {
+		ok = true // whether a request that was cancelled before it was issued is still written is not decided by the statement
+	} else {
+		id, ok = cw.nextRootsRequest(s)
+	}
 	if !ok {
 		return TimingFailf("C05/request-not-delivered", "%s: the roots/list request did not appear on the session's own stream", where)
 	}
@@ -484,6 +522,13 @@ func (cw *c05World) roots(op C05Op, s *refSess, nonce, where string) *Failure {
 		answer(cw.sess[op.Other], fmt.Sprintf("foreign-%d", op.Other))
 		time.Sleep(2 * time.Millisecond)
 		answer(s, fmt.Sprintf("own-%d", op.Sess))
+	case "foreign-error":
+		// the other session answers with an error object under the same request id
+		cw.post(cw.sess[op.Other], fmt.Sprintf(`{"jsonrpc":"2.0","id":%s,"error":{"code":-32000,"message":"foreign-%d says no"}}`, id, op.Other))
+		time.Sleep(2 * time.Millisecond)
+		answer(s, fmt.Sprintf("own-%d", op.Sess))
+	case "precancel":
+		// nothing to answer: the request was given up before it was issued
 	case "cancel":
 		if cf, ok := cw.cancels.Load(nonce); ok {
 			cf.(context.CancelFunc)()
@@ -533,12 +578,22 @@ func (cw *c05World) roots(op C05Op, s *refSess, nonce, where string) *Failure {
 		s.consumed = len(s.stream.Events())
 	}
 	switch op.Answer {
+	case "precancel":
+		if !strings.HasPrefix(text, "err:") {
+			return Failf("C05/cancel-result", "%s: a roots/list issued under a context that was already cancelled returned %q", where, text)
+		}
+		cw.staleRequests(s)
 	case "cancel":
 		if !strings.HasPrefix(text, "err:") || !strings.Contains(text, "context canceled") {
 			return Failf("C05/cancel-result", "%s: a cancelled roots/list returned %q", where, text)
 		}
 		// a late answer must change nothing
 		answer(s, "late")
+	case "foreign-error":
+		if !strings.HasPrefix(text, "roots:") {
+			return Failf("C05/foreign-answer-accepted", "%s: ListRoots inside session %d returned %q after session %d had posted an error answer under the same request id", where, op.Sess, text, op.Other)
+		}
+		fallthrough
 	case "foreign":
 		if strings.Contains(text, "foreign-") {
 			return Failf("C05/foreign-answer-accepted", "%s: ListRoots inside session %d returned %q - the answer posted by session %d under the same request id", where, op.Sess, text, op.Other)
